@@ -333,3 +333,12 @@ func VerifJrnLock(dir string, timeout time.Duration, failOnTimeout bool) (mode c
 const VerifJrnLockFileTimeout = lockFileTimeout
 
 func VerifJrnCrc(b []byte) uint32 { return crc(b) }
+
+// VerifJrnSetTimestamp pins journalRecordTimestampGenerator (nil restores wall-clock seconds) so
+// that the bytes of root hash records are reproducible by the model.
+func VerifJrnSetTimestamp(f func() uint64) {
+	if f == nil {
+		f = func() uint64 { return uint64(time.Now().Unix()) }
+	}
+	journalRecordTimestampGenerator = f
+}
